@@ -1159,6 +1159,9 @@ class ExprMixin:
             argterms |= v
         nf = type(frame)(f, frame.ctx + (qual,), selfterm or frame.selfterm, frame.depth + 1,
                          parent=frame, callnode=node, argterms=frozenset(argterms))
+        if self._pending_on_yield is not None and getattr(f, "is_ctxmgr", False):
+            nf.on_yield = self._pending_on_yield
+            self._pending_on_yield = None
         self.stats["max_depth"] = max(self.stats["max_depth"], nf.depth)
         caller_env = st.env
         o = self.call_body(f, st.set(env=env), nf)
